@@ -176,9 +176,11 @@ def bound_field(c, horizon):
 
 def make_adaptive(rng, c, strats=("filter", "fixedpoint")):
     bound_field(c, Fr(3, 4))
-    if rng.random() < 0.6:
-        c["init_mode"] = "exact"
-        c["std"] = [Fr(0)] * (c["q"] + 1) if c["kind"] == "iso" else [[Fr(0)] * c["d"] for _ in range(c["q"] + 1)]
+    # well-conditioned initial conditions only (see harness/c14.py): exact, or a small uniform std
+    if c["init_mode"] == "mixed" or rng.random() < 0.4:
+        c["init_mode"] = rng.choice(["exact", "exact", "inexact"])
+        v = Fr(0) if c["init_mode"] == "exact" else Fr(1, 1024)
+        c["std"] = [v] * (c["q"] + 1) if c["kind"] == "iso" else [[v] * c["d"] for _ in range(c["q"] + 1)]
     if c["strat"] not in strats:
         c["strat"] = rng.choice(strats)
     c["damp"] = Fr(0)
@@ -478,7 +480,8 @@ def permutation_check(ck, n):
         idx = np.array([m * d + p[i] for m in range(n1) for i in range(d)])
         cc = dict(c)
         compare_dense_layout(ck, cc, f"C15.permutation.{c['kind']}", {"case": jc, "permutation": p}, ra, rb, rt,
-                             f"solution permuted by {p}", "permuted problem", 1e-10, 1e-10, "permutation", idx=idx,
+                             f"solution permuted by {p}", "permuted problem", 1e-10 if c["q"] <= 3 else 1e-8, 1e-10 if c["q"] <= 3 else 1e-8,
+                             "permutation", idx=idx,
                              scale_perm=(p if c["kind"] == "blockdiag" else None))
 
 
@@ -623,8 +626,8 @@ def main():
     ck = lib.Check("C15")
     pr = ck.run_proof()
     quick = ck.tier == "quick"
-    phases = [pytree_check(ck, 20 if quick else 200), permutation_check(ck, 15 if quick else 150),
-              jit_check(ck, 6 if quick else 36), vmap_check(ck, 8 if quick else 60)]
+    phases = [pytree_check(ck, 30 if quick else 200), permutation_check(ck, 21 if quick else 150),
+              jit_check(ck, 9 if quick else 36), vmap_check(ck, 12 if quick else 60)]
     batches = [next(ph) for ph in phases]            # every phase first yields its runs ...
     allruns = [r for b in batches for r in b]
     res = run(allruns, 330 if quick else 6000)     # ... all runs are dispatched together ...
@@ -653,7 +656,7 @@ def main():
               "flatten/unflatten; fixed grid and adaptive, three factorisations, TS0/TS1, three strategies, three calibrations: u.mean/u.std/"
               "output_scale/num_steps equal (1e-12 on fixed grids), structure = caller's (isotropic u.std: one scalar per coefficient, as documented), "
               "leading axis = len(grid)/len(save_at); (ii) permutation of 2..4 components incl. per-dimension base scales: solution, covariance and "
-              "per-dimension scales permuted (1e-10); (iii) jit vs jax.disable_jit() (1e-12 of |mean|+sd, 1e-9 of sd_i sd_j; identical num_steps); "
+              "per-dimension scales permuted (1e-10; 1e-8 for q >= 4); (iii) jit vs jax.disable_jit() (1e-12 of |mean|+sd, 1e-9 of sd_i sd_j; identical num_steps); "
               "(iv) jax.vmap over initial values and a stiffness parameter vs one at a time (means 1e-10 of |mean|+sd, std/scales 1e-8, each + 50x the deviation of a rounding-size-perturbed twin; NaN check, identical num_steps); adaptive batches "
               "whose step counts differ by >= 5x are the non-trivial ones. Adaptive comparisons: identical num_steps, values within 1e-7 (exact initial condition; 1e-4 otherwise) + 50x the "
               "deviation of a rounding-size-perturbed twin run (conditioning of the adaptive solve); non-trivial: all others; distinct by full input",
